@@ -67,6 +67,10 @@ func Headers(args any) {
 	case *expr.GRPCResponseExpr:
 		attr := &expr.AttributeExpr{}
 		if eval.Execute(fn, attr) {
+			if !expr.IsObject(attr.Type) {
+				eval.ReportError("Headers must define at least one attribute")
+				return
+			}
 			e.Headers = expr.NewMappedAttributeExpr(attr)
 		}
 	default:
